@@ -29,12 +29,12 @@ template <class T> static void run_T(Choice &c, Ctx &cx)
 
     // Known finding F-SS: a structurally singular matrix makes ?gstrf read uninitialised factor
     // storage (columns without any pivot candidate).  Route around it while it is open.
-    if (cx.is_known("F-SS") && struct_rank(G) < n) { cx.exclude("F-SS"); cx.label("struct-singular(excluded)"); return; }
+    if (cx.is_known("F-SS") && maybe_exactly_singular(G)) { cx.exclude("F-SS"); cx.label("exactly-singular(excluded)"); return; }
     // the matrix that is factored: A, or A^T for row storage
     Dense<W> AA = dense_of(S);
     if (o.nr) AA = transpose(AA);
 
-    vf_case_begin(0xA5);
+    vf_case_begin(cx.fill(0xA5));
     apply_tuning(o.tune);
     superlu_options_t so; set_default_options(&so); apply_opts(o, so);
     std::vector<int> perm_r(m, -1), perm_c(n, -1), etree(n, -1);
@@ -65,7 +65,7 @@ template <class T> static void run_T(Choice &c, Ctx &cx)
     };
     if (info < 0 || info > n) { cleanup(); vf_purge(); VF_FAIL(cx, "info", "valid call returned info=%lld (n=%d)", (long long)info, n); }
     if (!bytes_equal(S.idx, idx0) || !bytes_equal(S.ptr, ptr0) || !bytes_equal(S.val, val0)) { cleanup(); VF_FAIL(cx, "input-modified", "the caller's matrix arrays were modified"); }
-    if (info > 0) { cx.label("info>0"); cleanup(); ledger_clean(cx, "after singular return"); return; }
+    if (info > 0) { cx.label("singular-return"); cleanup(); ledger_clean(cx, "after singular return"); return; }
     LUDecoded<T> dec;
     bool ok = check_lu<T>(cx, AA, perm_r.data(), perm_c.data(), &L, &U, o.u, true, false, dec);
     int expansions = stat.expansions;
